@@ -2,7 +2,7 @@
    Statements only; proofs in Store/ProofsHash.v and Store/ProofsTop.v.
    [Inv st]: for every edge, hash = XOR of the CRCs of the node points of its
    lower node, of its edge points, and of the hashes of all child edges. *)
-From Verif Require Import Base.Bytes Store.GraphCount Store.GraphWalk Store.Model Store.ProofsRows Store.ProofsHash Store.ProofsTop Store.ProofsMerkle.
+From Verif Require Import Base.Bytes Store.GraphCount Store.GraphWalk Store.Model Store.ProofsRows Store.ProofsHash Store.ProofsTop Store.ProofsMerkle Store.ProofsSpec.
 From Verif Require Import Properties.StoreExample.
 Local Open Scope N_scope.
 
@@ -46,6 +46,12 @@ Print Assumptions C03_content_determines_hash.
 Theorem C03_verify_clean : forall st, Inv st <-> verify st = [].
 Proof. exact verify_clean. Qed.
 Print Assumptions C03_verify_clean.
+
+(* the executable specification the checker evaluates on every dump of a real instance (every hash
+   recomputed from the dumped points and child hashes) is exactly this invariant *)
+Theorem C03_spec_is_inv : forall st, spec_hashes_ok (project st) = true <-> Inv st.
+Proof. exact spec_is_inv. Qed.
+Print Assumptions C03_spec_is_inv.
 
 (* a point's checksum depends on exactly its time, type, key, text and value *)
 Theorem C03_crc_depends_exactly :
